@@ -236,17 +236,7 @@ func init() {
 			}
 			for i := 0; i < nr; i++ {
 				c := genRrCase(r, 2+r.Intn(3), 0, 30, 8+r.Intn(16), 1+r.Intn(3))
-				var ops []rOp
-				for _, op := range c.Ops {
-					if (op.Op == "retrieve" || op.Op == "docs") && r.Chance(45) {
-						bad := setAssign(op.A, r.Intn(len(c.Fields)), pick(r, []TV{tvBool(true), {T: "other:struct"}}))
-						s2 := 5 + r.Intn(3) // other scanners, created on demand (they take a bitmap from the pool)
-						ops = append(ops, rOp{S: s2, Op: "reset"}, rOp{S: s2, Op: pick(r, []string{"retrieve", "docs"}), A: bad})
-						ops = append(ops, rOp{S: 8 + i%3, Op: "reset"}, rOp{S: 8 + i%3, Op: "retrieve", A: op.A}, rOp{S: 8 + i%3, Op: "raw"})
-					}
-					ops = append(ops, op)
-				}
-				c.Ops = ops
+				injectRrFailures(r, &c, i)
 				add(c)
 			}
 		},
@@ -268,4 +258,21 @@ func init() {
 			return map[string]interface{}{"assignment_checks": "every assignment deep-copied before Retrieve and compared after", "fresh_index_comparisons": "every 10th step"}, v
 		},
 	}
+}
+
+// injectRrFailures: before about half of the retrievals of a roaring case, another scanner runs the same
+// assignment with an unsupported value on one field (a retrieval that fails half-way), then a third scanner
+// runs the unmodified assignment; a failed retrieval must not leak into later retrievals of ANY scanner
+func injectRrFailures(r *Rand, c *rCase, i int) {
+	var ops []rOp
+	for _, op := range c.Ops {
+		if (op.Op == "retrieve" || op.Op == "docs") && r.Chance(45) {
+			bad := setAssign(op.A, r.Intn(len(c.Fields)), pick(r, []TV{tvBool(true), {T: "other:struct"}}))
+			s2 := 5 + r.Intn(3) // other scanners, created on demand (they take a bitmap from the pool)
+			ops = append(ops, rOp{S: s2, Op: "reset"}, rOp{S: s2, Op: pick(r, []string{"retrieve", "docs"}), A: bad})
+			ops = append(ops, rOp{S: 8 + i%3, Op: "reset"}, rOp{S: 8 + i%3, Op: "retrieve", A: op.A}, rOp{S: 8 + i%3, Op: "raw"})
+		}
+		ops = append(ops, op)
+	}
+	c.Ops = ops
 }
